@@ -307,13 +307,19 @@ SetTarget ==
        \* alias), and re-targeting the middle link of a chain leaves the outer alias listed on the
        \* old final target only; the free mode explores both
        /\ (TopDown => (atarget[a] = Nil /\ \A b \in AliasObj : atarget[b] # a))
-       /\ parent[a] # Nil                       \* Alias.path needs a parent
-       /\ (TopDown => Attached(a))              \* (clean domain: aliases that are in the tree; a removed alias
+       /\ IF parent[a] = Nil
+          \* an alias that was never inserted has no path: `value is self` is tested first (CyclicAliasError),
+          \* then `value.path == self.path` dereferences the missing parent (AttributeError) - in both cases
+          \* BEFORE anything is assigned, so the refused call leaves the alias untouched (faithful to the
+          \* code; the exception class is not a C16 clause, the unchanged state is: I7 / Fail)
+          THEN Fail(op, IF v = a THEN "Cyclic" ELSE "AttributeError")
+          ELSE
+           /\ (TopDown => Attached(a))          \* (clean domain: aliases that are in the tree; a removed alias
                                                 \*  still has its parent pointer and would register under a path
                                                 \*  that may now belong to its successor)
-       /\ IF r[4] = "Cyclic" THEN Fail(op, "Cyclic")
-          ELSE /\ atarget' = r[1] /\ atpath' = r[2] /\ backrefs' = r[3] /\ UNCHANGED <<members, parent>>
-               /\ outcome' = "ok" /\ Log(op, members, parent, r[1], r[2], r[3], "ok")
+           /\ IF r[4] = "Cyclic" THEN Fail(op, "Cyclic")
+              ELSE /\ atarget' = r[1] /\ atpath' = r[2] /\ backrefs' = r[3] /\ UNCHANGED <<members, parent>>
+                   /\ outcome' = "ok" /\ Log(op, members, parent, r[1], r[2], r[3], "ok")
 
 \* ---- alias.resolve_target()  (single link) -----------------------------------------------------------------
 Resolve ==
